@@ -26,6 +26,9 @@ PROPS = {
             {'name': 'c05', 'src': ['props/c05.c'] + BFS, 'cfgs': ['ring4'], 'args': 'job all ISLX'},
             {'name': 'c05', 'src': ['props/c05.c'] + BFS, 'cfgs': ['ring4'], 'args': 'burst all ISLX'},
             {'name': 'c05', 'src': ['props/c05.c'] + BFS, 'cfgs': ['ring4'], 'args': 'job 0 ISLC'},
+            # synchronous hash bursts (sharing the HMAC-SHA-512 manager with parked jobs) join the alphabet
+            {'name': 'c05', 'src': ['props/c05.c'] + BFS, 'cfgs': ['ring4'], 'args': 'job+sync all ISLX'},
+            {'name': 'c05', 'src': ['props/c05.c'] + BFS, 'cfgs': ['ring4'], 'args': 'burst+sync all ISLX', 'tiers': ['thorough']},
             {'name': 'c05', 'src': ['props/c05.c'] + BFS, 'cfgs': ['ring4'], 'args': 'job 2,4,6 ISLC', 'tiers': ['thorough']},
             {'name': 'c05', 'src': ['props/c05.c'] + BFS, 'cfgs': ['ring4'], 'args': 'job 0,4,6 ISLPX', 'tiers': ['thorough']},
             {'name': 'c05', 'src': ['props/c05.c'] + BFS, 'cfgs': ['ring4'], 'args': 'burst 0,4,6 ISLPX', 'tiers': ['thorough']},
